@@ -6,7 +6,7 @@ from common import *
 RULE = ('pump strings prefix + unit^n + suffix (n chars 2000..8000) enumerated over prefixes x pump units (incl. the literals of every rule) x suffixes, '
         'tokenized by the real lexer in a killable subprocess under a per-input time budget; non-trivial = distinct pump string')
 ASSUMPTIONS = ['CPython re explores at most the search tree counted by `work` (time proportional to it)', 'wall-clock budget is generous (x100 over the slowest legitimate quadratic pump) to avoid noise alarms']
-PARTIAL = ['the two quoted-string rules of shape q(qq|\\q|[^q])*q have no certificate yet (their body is unambiguous but not syntactically deterministic): covered by the timing harness only']
+PARTIAL = ['wall-clock relation (CPython re time proportional to the modelled search tree) is an assumption; every rule has a proved polynomial bound: 50 by the shape certificate, the two quoted-string rules by the parity argument (string_rules_poly)']
 TRUSTED_EXTRA = ['cost model: work = size of the complete backtracking search tree (SqlModel/RegexCost.lean)']
 
 PREFIXES = ['', "'", '"', '`', '$a$', '/*', '/*+', '--', '# ', '(', 'a', '1', '[', '´', '1.', '0x', ':', '@', '\\', 'LEFT ', 'END ', 'NULLS ', "AT TIME ZONE '"]
